@@ -20,6 +20,7 @@
 #include "Simulation/SimuFFTParam.hpp"
 #include "Gibbs/GibbsUMulti.hpp"
 #include "Gibbs/GibbsUMultiMono.hpp"
+#include "Gibbs/GibbsMMulti.hpp"
 #include "LithoRule/Rule.hpp"
 #include "LithoRule/RuleProp.hpp"
 #include "LithoRule/Node.hpp"
@@ -149,6 +150,25 @@ static std::string run(const Sx& c) {
     verif_rng_trace_stop();
     o << "(0 " << sx_d(v) << " " << trace_draws() << " " << law_get_random_seed() << ")";
     delete db; delete model;
+  } else if (kind == 12) {
+    // (12 variant seed yk sk vmin vmax): one site of the Gibbs sampler = _isConstraintTight + getSimulate
+    // variant 0: GibbsUMulti, 1: GibbsMMulti (moving), 2: GibbsUMultiMono
+    int variant = (int) c[1].i(); int seed = (int) c[2].i(); double yk = c[3].d(), sk = c[4].d(); double vmin = c[5].d(TEST), vmax = c[6].d(TEST);
+    VectorDouble tab = { 0., 0., vmin, vmax };
+    Db* db = Db::createFromSamples(1, ELoadBy::COLUMN, tab, { "x", "y", "lo", "up" }, { "x1", "x2", "lower1", "upper1" }, false);
+    Model* model = Model::createFromParam(ECov::SPHERICAL, 10., 1.);
+    AGibbs* gibbs = nullptr;
+    if (variant == 0) gibbs = new GibbsUMulti(db, model);
+    else if (variant == 1) gibbs = new GibbsMMulti(db, model);
+    else { std::vector<Model*> mv; mv.push_back(model); gibbs = new GibbsUMultiMono(db, mv, 0.); }
+    gibbs->init(1, 1, 0, 1, seed, 0, true);
+    VectorVectorDouble y = gibbs->allocY();
+    verif_rng_trace_start();
+    double v;
+    if (!gibbs->_isConstraintTight(0, 0, &v)) v = gibbs->getSimulate(y, yk, sk, 0, 0, 0, 0, 5);
+    verif_rng_trace_stop();
+    o << "(0 " << sx_d(v) << " " << trace_draws() << " " << law_get_random_seed() << ")";
+    delete gibbs; delete db; delete model;
   } else if (kind == 8) {
     o << "(" << Db::getSimRank((int) c[1][0].i(), (int) c[1][1].i(), (int) c[1][2].i(), (int) c[1][3].i(), (int) c[1][4].i()) << ")";
   } else if (kind == 7) {
